@@ -23,7 +23,7 @@ func membershipFactory.New
 func membershipFactory.New.$[a,s]
   props C12 C19
   captures s != nil && s.Snapshot != nil
-  requires a != nil && a.Qed != nil && !isnil(a.Notifier) && !isnil(a.SnapshotStore) && !isnil(i.log)
+  requires a != nil && a.Qed != nil && ClientOK(a.Qed) && !isnil(a.Notifier) && !isnil(a.SnapshotStore) && !isnil(i.log)
   requires a.Qed.hasherF != nil && pure_fn(a.Qed.hasherF) && nonnil_fn(a.Qed.hasherF)
   modifies everything, alerts, verifyCalls, lastVerify, lastVerifyHistory, lastVerifyHyper, lastStoredHyper, reqCount, lastReqWasPrimary
   // the snapshot is checked against the hyper digest the snapshot STORE holds for the current
@@ -44,7 +44,7 @@ func incrementalFactory.New
 
 func incrementalFactory.New.$[a,b]
   props C12 C19
-  requires a != nil && a.Qed != nil && !isnil(a.Notifier) && !isnil(i.log) && b != nil
+  requires a != nil && a.Qed != nil && ClientOK(a.Qed) && !isnil(a.Notifier) && !isnil(i.log) && b != nil
   requires a.Qed.hasherF != nil && pure_fn(a.Qed.hasherF) && nonnil_fn(a.Qed.hasherF)
   modifies everything, alerts, verifyCalls, lastVerify, lastVerifyHistory, lastVerifyHyper, reqCount, lastReqWasPrimary
   ensures C19/alert-iff-not-verified: verifyCalls == old(verifyCalls) + 1 ==> (lastVerify ==> alerts == old(alerts)) && (!lastVerify ==> alerts == old(alerts) + 1)
